@@ -163,6 +163,15 @@ func (sn *Snap) CanonRouting() string {
 	if t := vsched.Pending(); t > 0 {
 		fmt.Fprintf(&b, "\nTASKS %d", t)
 	}
+	for _, f := range s.InFlight {
+		rel := "old"
+		for _, v := range sn.nb[f.X.From] {
+			if s.IdxH(v.NameH) == f.X.Target {
+				rel = cmp(f.X.Seq, v.AdvertSeq) // the handler compares the Data's number with the neighbour entry's
+			}
+		}
+		fmt.Fprintf(&b, "\nFLIGHT r%d<r%d seq%s {%s}", f.X.From, f.X.Target, rel, f.Adv)
+	}
 	if len(s.Held) > 0 {
 		// held closures are a function of (state before the operation, operation, cut point)
 		fmt.Fprintf(&b, "\nHELD %d tasks of %s", len(s.Held), s.HeldDesc)
